@@ -63,6 +63,15 @@ extern int __verif_memo_miss;
 #  define REF_UDIV64(a, b) __verif_udiv64(a, b)
 #  define REF_UREM64(a, b) __verif_urem64(a, b)
 #  define MEMO_MISSES() __verif_memo_miss
+extern int __verif_seq_mode;
+#  ifdef NO_LOCKSTEP
+#  define MUL_RECORD() ((void)0)
+#  define MUL_REPLAY() ((void)0)
+#  else
+void __verif_seq(int mode);
+#  define MUL_RECORD() __verif_seq(1)   /* start a new product log: run the implementation */
+#  define MUL_REPLAY() __verif_seq(2)   /* rewind: run the reference model (or the implementation again) against the log */
+#  endif
 #else
 #  define REF_MUL32(a, b) ((u32)((u32)(a) * (u32)(b)))
 #  define REF_MUL64(a, b) ((u64)((u64)(a) * (u64)(b)))
@@ -71,6 +80,8 @@ extern int __verif_memo_miss;
 #  define REF_UDIV64(a, b) ((u64)((u64)(a) / (u64)(b)))
 #  define REF_UREM64(a, b) ((u64)((u64)(a) % (u64)(b)))
 #  define MEMO_MISSES() 0
+#  define MUL_RECORD() ((void)0)
+#  define MUL_REPLAY() ((void)0)
 #endif
 
 /* exception / termination state of the translated code (in the real build the wrappers catch
